@@ -16,16 +16,16 @@ TRUSTED_BASE = [
 PROPS = {
     "C01": dict(modules=["Cvss.Props.C01", "Cvss.Props.C01v2", "Cvss.Props.C01v3", "Cvss.Props.C01v4"], ties=["Cvss.Model.SrcTie"], streams=["parse"]),
     "C02": dict(modules=["Cvss.Props.C02", "Cvss.Props.C02v2", "Cvss.Props.C02v3", "Cvss.Props.C02v4"], ties=["Cvss.Model.SrcTie"], streams=["parse", "obj"]),
-    "C03": dict(modules=[], ties=[], streams=["score"]),
-    "C04": dict(modules=["Cvss.Props.C04", "Cvss.Proofs.Score4Main", "Cvss.Proofs.Score4TailAll", "Cvss.Proofs.Score4Groups", "Cvss.Proofs.Score4Loops", "Cvss.Proofs.Score4MV", "Cvss.Proofs.Score4Shape", "Cvss.Spec.V4Lemmas", "Cvss.Proofs.Score4Tail00", "Cvss.Proofs.Score4Tail01", "Cvss.Proofs.Score4Tail02", "Cvss.Proofs.Score4Tail03", "Cvss.Proofs.Score4Tail04", "Cvss.Proofs.Score4Tail05", "Cvss.Proofs.Score4Tail06", "Cvss.Proofs.Score4Tail07", "Cvss.Proofs.Score4Tail08", "Cvss.Proofs.Score4Tail09", "Cvss.Proofs.Score4Tail10", "Cvss.Proofs.Score4Tail11", "Cvss.Proofs.Score4Tail12", "Cvss.Proofs.Score4Tail13", "Cvss.Proofs.Score4Tail14", "Cvss.Proofs.Score4Tail15", "Cvss.Proofs.Score4Tail16", "Cvss.Proofs.Score4Tail17"], ties=[], streams=["score"]),
-    "C05": dict(modules=["Cvss.Props.C05", "Cvss.Proofs.Score2Base", "Cvss.Proofs.Score2Defs", "Cvss.Proofs.Score2F", "Cvss.Proofs.Score2Main", "Cvss.Proofs.Score2Mono", "Cvss.Proofs.Score2Near", "Cvss.Proofs.Score2Ok", "Cvss.Proofs.Score2RB00", "Cvss.Proofs.Score2RB01", "Cvss.Proofs.Score2RB02", "Cvss.Proofs.Score2RB10", "Cvss.Proofs.Score2RB11", "Cvss.Proofs.Score2RB12", "Cvss.Proofs.Score2RB20", "Cvss.Proofs.Score2RB21", "Cvss.Proofs.Score2RB22", "Cvss.Proofs.Score2T20", "Cvss.Proofs.Score2T21", "Cvss.Proofs.Score2T22", "Cvss.Proofs.Score2T23", "Cvss.Proofs.Score2T2Mono", "Cvss.Proofs.Score2Tables", "Cvss.Proofs.Score2Wf"], ties=[], streams=["score"]),
+    "C03": dict(modules=["Cvss.Props.C03", "Cvss.Proofs.Score3Base30", "Cvss.Proofs.Score3Base31", "Cvss.Proofs.Score3Close30", "Cvss.Proofs.Score3Close31", "Cvss.Proofs.Score3CloseDef", "Cvss.Proofs.Score3Codes30", "Cvss.Proofs.Score3Codes31", "Cvss.Proofs.Score3Env30_0", "Cvss.Proofs.Score3Env30_1", "Cvss.Proofs.Score3Env30_2", "Cvss.Proofs.Score3Env30_3", "Cvss.Proofs.Score3Env31_0", "Cvss.Proofs.Score3Env31_1", "Cvss.Proofs.Score3Env31_2", "Cvss.Proofs.Score3Env31_3", "Cvss.Proofs.Score3M30", "Cvss.Proofs.Score3M31", "Cvss.Proofs.Score3Main30", "Cvss.Proofs.Score3Main31", "Cvss.Proofs.Score3Roundup", "Cvss.Proofs.Score3Spec", "Cvss.Proofs.Score3T30", "Cvss.Proofs.Score3T31", "Cvss.Proofs.Score3Util"], ties=[], streams=["score:F:30,31"]),
+    "C04": dict(modules=["Cvss.Props.C04", "Cvss.Proofs.Score4Main", "Cvss.Proofs.Score4TailAll", "Cvss.Proofs.Score4Groups", "Cvss.Proofs.Score4Loops", "Cvss.Proofs.Score4MV", "Cvss.Proofs.Score4Shape", "Cvss.Spec.V4Lemmas", "Cvss.Proofs.Score4Tail00", "Cvss.Proofs.Score4Tail01", "Cvss.Proofs.Score4Tail02", "Cvss.Proofs.Score4Tail03", "Cvss.Proofs.Score4Tail04", "Cvss.Proofs.Score4Tail05", "Cvss.Proofs.Score4Tail06", "Cvss.Proofs.Score4Tail07", "Cvss.Proofs.Score4Tail08", "Cvss.Proofs.Score4Tail09", "Cvss.Proofs.Score4Tail10", "Cvss.Proofs.Score4Tail11", "Cvss.Proofs.Score4Tail12", "Cvss.Proofs.Score4Tail13", "Cvss.Proofs.Score4Tail14", "Cvss.Proofs.Score4Tail15", "Cvss.Proofs.Score4Tail16", "Cvss.Proofs.Score4Tail17"], ties=[], streams=["score:F:40"]),
+    "C05": dict(modules=["Cvss.Props.C05", "Cvss.Proofs.Score2Base", "Cvss.Proofs.Score2Defs", "Cvss.Proofs.Score2F", "Cvss.Proofs.Score2Main", "Cvss.Proofs.Score2Mono", "Cvss.Proofs.Score2Near", "Cvss.Proofs.Score2Ok", "Cvss.Proofs.Score2RB00", "Cvss.Proofs.Score2RB01", "Cvss.Proofs.Score2RB02", "Cvss.Proofs.Score2RB10", "Cvss.Proofs.Score2RB11", "Cvss.Proofs.Score2RB12", "Cvss.Proofs.Score2RB20", "Cvss.Proofs.Score2RB21", "Cvss.Proofs.Score2RB22", "Cvss.Proofs.Score2T20", "Cvss.Proofs.Score2T21", "Cvss.Proofs.Score2T22", "Cvss.Proofs.Score2T23", "Cvss.Proofs.Score2T2Mono", "Cvss.Proofs.Score2Tables", "Cvss.Proofs.Score2Wf"], ties=[], streams=["score:F:20"]),
     "C06": dict(modules=["Cvss.Props.C06", "Cvss.Props.C06v2", "Cvss.Props.C06v3", "Cvss.Props.C06v4"], ties=["Cvss.Model.SrcTie"], streams=["parse"]),
     "C07": dict(modules=["Cvss.Props.C07", "Cvss.Props.C07v4"], ties=[], streams=["obj"]),
     "C08": dict(modules=["Cvss.Props.C08", "Cvss.Props.C08v2", "Cvss.Props.C08v3", "Cvss.Props.C08v4"], ties=["Cvss.Model.SrcTie"], streams=["parse", "obj"]),
     "C09": dict(modules=["Cvss.Props.C09", "Cvss.Props.C09v4", "Cvss.Props.C09b"], ties=[], streams=["obj", "parse"]),
-    "C10": dict(modules=["Cvss.Props.C10"], ties=[], streams=["score"]),
-    "C11": dict(modules=["Cvss.Props.C11v2"], ties=[], streams=["score"]),
-    "C12": dict(modules=["Cvss.Props.C12v2"], ties=[], streams=["score"]),
+    "C10": dict(modules=["Cvss.Props.C10"], ties=[], streams=["score:K"]),
+    "C11": dict(modules=["Cvss.Props.C11v2"], ties=[], streams=["score:F"]),
+    "C12": dict(modules=["Cvss.Props.C12v2"], ties=[], streams=["score:M"]),
     "C13": dict(modules=["Cvss.Props.C13", "Cvss.Props.C13b", "Cvss.Props.C13v2", "Cvss.Props.C13v3", "Cvss.Props.C13v4"], ties=["Cvss.Model.SrcTie"], streams=["parse"]),
     "C14": dict(modules=["Cvss.Props.C14"], ties=["Cvss.Model.SrcTie"], streams=["race", "obj"]),
     "C15": dict(modules=["Cvss.Props.C15"], ties=[], streams=["rating"]),
@@ -148,7 +148,13 @@ for pid in ["C11", "C12"]:
         "exception), for every well-formed object; C12v2: Base and Temporal scores are monotone in every base/temporal metric along the Spec severity order (Spec/OrderV2.lean), by kernel "
         "enumeration on the float model. v3.x/v4.0 parts: decided by the Spec-oracle differential (F operations: nearest-k/10 + Rating accepts; M operations: every ordered value pair of "
         "one metric on random objects, judged with Spec/Effective.lean ranks) until their theorems are merged.", _SCORE_NOTE, _TECH + " (v2.0); differential oracle (v3.x, v4.0)")
-for pid in ["C03"]:
+LEVEL_TEXT["C03"] = _lt("proof",
+    "Theorems Props.C03.base/temporal/environmental_v31/_v30 (+ impact/exploitability): for EVERY well-formed v3.0/v3.1 object (573,308,928,000 per version) each regenerated score is "
+    "bit-equal to the double nearest K/10 where K is the exact-decimal evaluation of the FIRST equations (Spec/V3.lean: weights, scope-dependent PR, 0.915 cap, the version's own "
+    "ModifiedImpact, 10 cap, zero when (Modified)Impact <= 0, Roundup = least tenth >= x), finite, K <= 100; Impact/Exploitability within 1e-12 of the exact values. Kernel enumeration: "
+    "2,592 base classes, 10,100 temporal steps, 69,984 environmental-inner classes per version (16 chunks; X reduced to M by lemma), shape lemmas by unfolding the generated bodies; "
+    "also proved: real-number Roundup = Appendix-A integer Roundup on every value the equations produce.", _SCORE_NOTE, _TECH)
+for pid in []:
     LEVEL_TEXT[pid] = _lt("exploration", _PENDING, _NOTE, "differential testing of the implementation against an executable Lean Spec and model (proofs pending)")
 for pid in []:
     NOT_CLAIMED[pid] = "check under construction (Spec and theorems for this property are not merged yet); see DESIGN.md section 7"
